@@ -121,6 +121,7 @@ func (v *StructSchema) process(ctx *p.SchemaCtx) {
 		subCtx.Path.Push(&fieldKey)
 		subCtx.DType = processor.getType()
 		subCtx.Exit = false
+		subCtx.CanCatch = false
 		p.VerifEmit("field", originalKey, fieldKey, nil)
 		processor.process(subCtx)
 		subCtx.Path.Pop()
@@ -202,6 +203,7 @@ func (v *StructSchema) validate(ctx *p.SchemaCtx) {
 		subCtx.ValPtr = destPtr
 		subCtx.Path.Push(&fieldKey)
 		subCtx.DType = schema.getType()
+		subCtx.CanCatch = false
 		p.VerifEmit("field", key, fieldKey, nil)
 		schema.validate(subCtx)
 		subCtx.Path.Pop()
